@@ -16,7 +16,7 @@ use std::time::Duration;
 
 pub static PROP: Prop = Prop {
     id: "C16",
-    rule: "cases: a pool of 2-6 (program, context recipe) pairs that deliberately share the names v0..v3 (statement programs that assign, read and fail midway; expression trees; texts that differ in one literal or are identical with different contexts; flat texts around a dynamically re-registered infix operator vh_dyn; a third of the later entries evaluate an earlier entry from inside a context function reached by the bare name `nz`, i.e. nested evaluation) and a history of 6-30 steps over 1-4 persistent worker threads: exec(i) with a fresh context, parse-only(i), parse-once-exec-n-times(i) on equal fresh contexts, re-registration of vh_dyn with another precedence/associativity, parse(flat text) compared with the reference parser under the registration made last, and bursts in which all threads run steps concurrently behind a barrier. Oracle: the solo outcome of each pool entry (result and final context) from the reference evaluator (or, where that is unspecified, the first solo run) must be the outcome of every occurrence on every thread; parse results depend only on the text and the last registration; after parse-only steps no lock is held. 1 case in 64 also cross-checks the solo outcome in a fresh child process. Fixed part: held-initialisation scenarios (results must not depend on another thread's concurrent first use) and depth sweeps (1..320 nested parens/brackets/calls/prefixes) evaluated, parsed only, and evaluated again on one thread must repeat exactly. Non-trivial: the history runs >= 2 different programs that share an assigned name with a repetition after a different program, or a parse on one thread after a re-registration on another; distinct by (pool shape, schedule shape).",
+    rule: "cases: a pool of 2-6 (program, context recipe) pairs that deliberately share the names v0..v3 (statement programs that assign, read and fail midway; expression trees; texts that differ in one literal or are identical with different contexts; flat texts around a dynamically re-registered infix operator vh_dyn; a third of the later entries evaluate an earlier entry from inside a context function reached by the bare name `nz`, i.e. nested evaluation) and a history of 6-30 steps over 1-4 persistent worker threads: exec(i) with a fresh context, parse-only(i), parse-once-exec-n-times(i) on equal fresh contexts, re-registration of vh_dyn with another precedence/associativity, parse(flat text) compared with the reference parser under the registration made last, and bursts in which all threads run steps concurrently behind a barrier. Oracle: the solo outcome of each pool entry (result and final context) from the reference evaluator (or, where that is unspecified, the first solo run) must be the outcome of every occurrence on every thread; parse results depend only on the text and the last registration; after parse-only steps no lock is held and no registered handler has been invoked (a third of the histories use the harness's logging functions and operators, with literal and computed arguments). 1 case in 64 also cross-checks the solo outcome in a fresh child process. Fixed part: held-initialisation scenarios (results must not depend on another thread's concurrent first use) and depth sweeps (1..320 nested parens/brackets/calls/prefixes) evaluated, parsed only, and evaluated again on one thread must repeat exactly. Non-trivial: the history runs >= 2 different programs that share an assigned name with a repetition after a different program, or a parse on one thread after a re-registration on another; distinct by (pool shape, schedule shape).",
     assumptions: &[
         "the harness's own registrations (vh_*) are part of `the registrations made so far` and are modelled",
         "concurrent bursts use free-running threads: interleavings are sampled, not enumerated",
@@ -168,9 +168,12 @@ fn run_cmd(cmd: &Cmd, pool: &Arc<Vec<Entry>>) -> Rep {
                 Entry::Prog { text, .. } => text,
                 Entry::Flat { text } => text,
             };
+            let before = handlers::log_len();
             let ok = parse_expression(text).is_ok();
             let free = locks_free();
-            Rep::Parsed(format!("{}:{:?}", ok, free))
+            // parsing runs no handler: nothing may have been logged meanwhile on this thread
+            let calls = handlers::log_len().saturating_sub(before);
+            Rep::Parsed(format!("{}:{:?}:handler-calls={}", ok, free, calls))
         }
         Cmd::ExecMany(i, n) => match &pool[*i] {
             Entry::Prog { text, sc, .. } => {
@@ -306,6 +309,13 @@ fn check_rep(cmd: &Cmd, rep: &Rep, pool: &[Entry], dyn_state: (i32, bool), threa
             if !concurrent && (s.contains("false]") || s.contains("false,")) {
                 return Err(Failure::new("parse-side-effect:lock", format!("{}: locks after a parse-only step: {}\n    history: {}", at, s, trace), case()));
             }
+            if !s.ends_with("handler-calls=0") {
+                return Err(Failure::new(
+                    "parse-side-effect:handler-called",
+                    format!("{}: a parse-only step invoked a registered handler ({}): parsing alone changes nothing observable\n    history: {}", at, s, trace),
+                    case(),
+                ));
+            }
             Ok(())
         }
         (Cmd::ParseFlat(i), Rep::Sexp(got)) => {
@@ -354,6 +364,9 @@ fn case(src: &mut Src, st: &mut Stats, env: &Env) -> CaseResult {
     };
     // schedule parameters first (the tail of the choice vector may be exhausted)
     let nthreads = 1 + src.pick(4);
+    // in a third of the histories the programs also use the harness's registered (logging)
+    // functions and operators
+    let cfg = SemCfg { observables: src.pick(3) == 2, ..cfg };
     let nsteps = 6 + src.pick(25);
     let child_check = src.pick(64) == 0;
     let npool = 2 + src.pick(5);
